@@ -19,7 +19,7 @@ import sys
 import time
 
 VERIF = '/verif'
-REPO = '/repo'
+REPO = os.environ.get('MUT_REPO', '/repo')
 spec = importlib.util.spec_from_file_location('mutsweep', os.path.join(VERIF, 'tools', 'mutsweep.py'))
 MS = importlib.util.module_from_spec(spec)
 spec.loader.exec_module(MS)
